@@ -88,16 +88,15 @@ def ok10 (lim : Limits) (fs : FS) (op : Op) (impl : Json) : Bool :=
       && (let keys := (jarr impl "files").toList.map fun e => match e with | .arr a => asNat a[0]! | _ => 0
           keys == (order.toArray.qsort (· < ·)).toList)
 
-/-- C11 oracle for one load step: the implementation's result is that of a new loader on the
-    current files — both the model's (`HL.Reach.fresh`) and the real one run by the harness. -/
-def ok11 (lim : Limits) (m : Mode) (fs : FS) (op : Op) (impl realFresh : Json) : Bool :=
-  let exp := match op with
-    | .load r => some (HL.Reach.fresh fs lim m r)
-    | .loadContent r f => some (HL.Reach.freshContent fs lim m r f)
-    | _ => none
-  match exp with
-  | none => true
-  | some x => same impl (resJ x) && same impl realFresh
+/-- C11 oracle for one load step: the shared loader's result is the result of a brand-new real
+    loader run by the harness on the same files at the same moment.  (That the model's shared
+    loader agrees with the model's new loader, `HL.Reach.fresh`, is the theorem
+    `HL.Props.C11.load_history_independent`; that the model agrees with the shared real loader
+    is the correspondence.) -/
+def ok11 (op : Op) (impl realFresh : Json) : Bool :=
+  match op with
+  | .load _ | .loadContent _ _ => same impl realFresh
+  | _ => true
 
 def hist (c11 : Bool) (j : Json) : Json := Id.run do
   let m := modeOf (jget j "mode")
@@ -117,7 +116,7 @@ def hist (c11 : Bool) (j : Json) : Json := Id.run do
   let mut i := 0
   for op in ops do
     let im := impl[i]?.getD Json.null
-    let ok := if c11 then ok11 lim m w.fs op im (realFresh[i]?.getD Json.null) else ok10 lim w.fs op im
+    let ok := if c11 then ok11 op im (realFresh[i]?.getD Json.null) else ok10 lim w.fs op im
     if specOk && !ok then
       specOk := false
       why := if c11 then s!"step {i}: result differs from a fresh loader on the current files"
